@@ -45,6 +45,7 @@ RULES = {
     "R-RECOVER-STRETCH": flow.r_recover_stretch,
     "R-ENDED-BY-TABLE": closing.r_ended_by_table,
     "R-CLOSE-UNKNOWN-ONLY": closing.r_close_unknown_only,
+    "R-MATCHER-TABLE": closing.r_matcher_table,
     "R-DERIVE-EXPANSION": derive.r_derive_expansion,
     "R-DERIVE-REJECTS": derive.r_derive_rejects,
 }
@@ -69,7 +70,7 @@ PROPERTIES = {
                        "and the payload decoders' length classes.  Not decided: that the decoded number/string equals the bytes' value.",
     },
     "C06": {
-        "rules": ["R-STACK-END", "R-CLOSE", "R-OVERRUN-ALL", "R-SHARED-MATCHER", "R-TOL-STRICT", "R-CLOSE-UNKNOWN-ONLY"],
+        "rules": ["R-STACK-END", "R-CLOSE", "R-OVERRUN-ALL", "R-SHARED-MATCHER", "R-TOL-STRICT", "R-CLOSE-UNKNOWN-ONLY", "R-MATCHER-TABLE"],
         "level": "other",
         "explanation": "Typestate/value-flow rules over read_next and header validation: only End-form tags are stored on the open-master stack; the "
                        "stack shrinks only at the three closing sites (exhausted known-size masters drained innermost-first before the next header, "
@@ -106,7 +107,7 @@ PROPERTIES = {
                        "'Strict items are a prefix of tolerant items' is not decided.",
     },
     "C11": {
-        "rules": ["R-SHARED-MATCHER", "R-WRITER-VALIDATES", "R-CLOSE-UNKNOWN-ONLY"],
+        "rules": ["R-SHARED-MATCHER", "R-WRITER-VALIDATES", "R-CLOSE-UNKNOWN-ONLY", "R-MATCHER-TABLE"],
         "level": "other",
         "explanation": "Who-may-call check for the single shared matcher plus abstract interpretation of the writer's entries per (data type, master "
                        "form, options) class: the matcher is consulted before the first state mutation exactly for specified non-End tags, and a "
